@@ -382,6 +382,54 @@ def project_impl(new, old):
     return "\n".join(L)
 
 
+SIZES = {"u8": 1, "i8": 1, "bool": 1, "u16": 2, "i16": 2, "u32": 4, "i32": 4, "char": 4, "f32": 4, "u64": 8, "i64": 8,
+         "usize": 8, "isize": 8, "f64": 8, "u128": 16, "i128": 16}
+
+
+def max_size(ty, types):
+    """largest encoded size of a type at its current version (None if unbounded)"""
+    ty = ty.strip()
+    if ty in SIZES:
+        return SIZES[ty]
+    if ty in types:
+        t = types[ty]
+        if t.kind == "struct":
+            tot = 0
+            for f in t.fields:
+                if is_removed(f.ty) or f.vfrom > t.version or (f.vto is not None and f.vto < t.version):
+                    continue
+                m = max_size(f.ty, types)
+                if m is None:
+                    return None
+                tot += m
+            return tot
+        best = 0
+        for (vn, fs, disc, tup, vfrom) in t.variants:
+            tot = t.width
+            for f in fs:
+                m = max_size(f.ty, types)
+                if m is None:
+                    return None
+                tot += m
+            best = max(best, tot)
+        return best
+    if ty.startswith("Option<"):
+        m = max_size(ty[7:-1], types)
+        return None if m is None else 1 + m
+    if ty.startswith("(") and ty.endswith(")"):
+        ms = [max_size(p, types) for p in ty[1:-1].split(",") if p.strip()]
+        return None if any(m is None for m in ms) else sum(ms)
+    if ty.startswith("[") and ";" in ty:
+        inner, n = ty[1:-1].split(";")
+        m = max_size(inner, types)
+        return None if m is None else m * int(n)
+    return None
+
+
+CONTAINER_TYPES = ["SPlain", "SPackedC", "SMixC", "SBoolChar", "SNest", "STuple", "SArr", "EUnit", "EData", "EReprU16",
+                   "SWithEnumOk", "HA3", "HB2"]
+
+
 def main():
     names = set(t.name for t in FAMILY)
     out = ["// GENERATED by /verif/gen/gen_family.py -- do not edit", "#![allow(non_camel_case_types, dead_code)]",
@@ -419,6 +467,18 @@ def main():
                         out.append(project_impl(new, old))
                         fns2 = "derive(Savefile) Serialize for %s writing version %d; AbiRemoved::serialize" % (new.name, old.version)
                         reg.append('    h(older_%s_%s, 48, crate::family::write_older_read::<crate::family_gen::%s, crate::family_gen::%s, _>, "complete", "C18", "%s", "");' % (new.name, old.name, new.name, old.name, fns2))
+    types = {t.name: t for t in FAMILY}
+    for n in CONTAINER_TYPES:
+        T = "crate::family_gen::%s" % n
+        der = "derive(Savefile) output for %s" % n
+        reg.append('    h(file_%s, 64, crate::containers::file_noschema::<%s, _>, "complete", "C01,C02", "Serializer::save_impl; Deserializer::load_impl; savefile::save_noschema; savefile::load_noschema; %s", "");' % (n, T, der))
+        reg.append('    h(trunc_%s, 64, crate::containers::truncate_noschema::<%s, _>, "complete", "C07", "Deserializer::load_impl; Deserializer::read_*; %s Deserialize", "");' % (n, T, der))
+        reg.append('    h(fault_%s, 64, crate::containers::fault_write::<%s, _>, "complete", "C08", "Serializer::save_impl; Serializer::write_*; From<io::Error> for SavefileError; %s Serialize", "");' % (n, T, der))
+        reg.append('    h(chunk_%s, 64, crate::containers::chunk_read::<%s, _>, "complete", "C08", "Deserializer::load_impl; Deserializer::read_*; %s Deserialize", "");' % (n, T, der))
+        reg.append('    h(schema_%s, 64, crate::schemaread::schema_faithful::<%s, _>, "complete", "C12", "%s WithSchema::schema; savefile::get_schema; Serialize", "");' % (n, T, der))
+        m = max_size(n, types)
+        if m is not None:
+            reg.append('    h(mal_%s, 64, crate::containers::malformed_fixed::<%s, _, %d>, "complete", "C06", "%s Deserialize; Deserializer::read_*", "");' % (n, T, m, der))
     open(os.path.join(OUT, "family_gen.rs"), "w").write("\n".join(out))
     reg.append("}")
     open(os.path.join(OUT, "registry_family.rs"), "w").write("\n".join(reg) + "\n")
